@@ -86,8 +86,24 @@ def impl_oracle(c):
     op = c["op"]
     if op == "file":
         return J.file_oracle(c)
+    if op == "rawpos" and o.get("note"):
+        return "position", o["note"]
+    if op in ("tseries", "stream") and o.get("note"):
+        return ("value-and-error" if "together" in o["note"] else "decoder"), "%s: %s" % (op, o["note"])
     if op in ("tojson", "series", "shell") and o.get("note"):
         return "value-and-error", "%s: %s" % (op, o["note"])
+    # what the caller sees of the error list: never empty on failure, never a
+    # result with errors, never more than the cap of lexing.ErrorList (the
+    # strings strconv.Unquote rejects in strtoken.Parse are a plain slice)
+    if op in ("tojson", "series", "tseries", "shell", "stream"):
+        es = o.get("errs") or []
+        failed = (not o.get("ok")) if op != "stream" else o.get("fin", 0) != 0
+        if failed and not es:
+            return "neither", "%s returned neither a result nor an error" % op
+        if not failed and es:
+            return "value-and-error", "%s returned a result and errors %s" % (op, es[:3])
+        if len(es) > 20 and not (op == "shell" and set(es) == {"shellarg.invalidStr"}):
+            return "cap", "%s returned %d errors, more than the cap of 20" % (op, len(es))
     if op == "tojson" and o.get("ok") and o.get("out") is None and not o.get("outhex"):
         return "neither", "ToJSON returned neither output nor error"
     if c["stream"] in ("prefix", "cut", "corpus") and op in ("unmarshal", "series"):
@@ -155,8 +171,13 @@ def run(ck):
              "comma, no operand, bad object entry, sign without number, missing separator, lexing errors, unknown type) "
              "followed by each kind of truncated tail; every prefix of 12 documents; single-token deletions and insertions; all "
              "token sequences of length <= 3 over a 16/12/8-symbol alphabet rendered to text; seeded (splitmix64) "
-             "malformed bytes, invalid UTF-8, mutated documents, generated valid documents and their cuts; command "
-             "lines. Each input is run through DecodeSeries / Unmarshal / ToJSON / the token chain / strtoken.Parse. "
+             "malformed bytes, invalid UTF-8, mutated documents, generated valid documents and their cuts; sequences of "
+             "0-4 values read by one Decoder (for More() { Decode }) and their cuts; typed series decoded into real "
+             "struct types (unknown fields, type mismatches, unknown types) and their cuts; command "
+             "lines; (line, column) of every raw token, of EOF and of every lexing error on documents (LF and CRLF), "
+             "multi-line strings and comments, non-ASCII and invalid UTF-8, against the model's positions, and every "
+             "error position of ToJSON / DecodeSeries must be the start of a token. "
+             "Each input is run through DecodeSeries / Unmarshal / ToJSON / the token chain / strtoken.Parse. "
              "A case is trivial if its input is empty; distinct = distinct (operation, input bytes).",
         assumptions=["the io.Reader given to the lexer does not fail (inputs are byte slices / strings)",
                      "strconv.ParseFloat terminates and returns a value or an error",
